@@ -667,10 +667,19 @@ def _check_dict_paths(ctx, rep):
         get = [st for st in lp.body if isinstance(st, ast.Assign) and isinstance(st.value, ast.Call) and isinstance(st.value.func, ast.Attribute)
                and st.value.func.attr == "get" and unparse(st.value.func.value).endswith("." + field[1:])]
         inner = [n for n in lp.body if isinstance(n, ast.For) and isinstance(n.target, ast.Tuple) and len(n.target.elts) == 3]
-        if len(get) != 1 or len(inner) != 1 or unparse(inner[0].iter) != unparse(get[0].targets[0]):
+
+        def is_get(e):
+            return isinstance(e, ast.Call) and isinstance(e.func, ast.Attribute) and e.func.attr == "get" and e.args \
+                and unparse(e.func.value).endswith("." + field[1:])
+        # the looked-up list is bound to a local first, or iterated in place (the canonical form of a single-use local)
+        if len(get) == 1 and len(inner) == 1 and unparse(inner[0].iter) == unparse(get[0].targets[0]):
+            getcall = get[0].value
+        elif not get and len(inner) == 1 and is_get(inner[0].iter):
+            getcall = inner[0].iter
+        else:
             rep.undecided("R7", f, con, "expected `nz = c_sys.%s.get((x, y), [])` and one loop `for u, v, coefficient in nz`" % field[1:])
             continue
-        key = get[0].value.args[0]
+        key = getcall.args[0]
         if not (isinstance(key, ast.Tuple) and [unparse(x) for x in key.elts] in ([k1, k2], [k2, k1])):
             rep.undecided("R7", f, con, "lookup key %s is not the pair of loop variables" % unparse(key))
             continue
